@@ -51,6 +51,9 @@ const REQ_BUFS: &[&[u8]] = &[
     b"GET/a HTTP/1.1\r\nH1: v1\r\n\r\n",
     b"GET /a\tHTTP/1.1\r\n\r\n",
     b"GET /a HTTP/1.1\nH1: v1\n\n",
+    // ends inside the target; and a message with the same method length and a shorter target
+    b"GET /a-long-target-without-end",
+    b"PUT /x HTTP/1.1\r\nReferer: http://x/yyy\r\n\r\n",
 ];
 
 const RESP_BUFS: &[&[u8]] = &[
@@ -472,8 +475,8 @@ fn run_reuse(quick: bool, replay_dir: &str, prop: &str, sum: &mut Summary) {
                     let p = if name.starts_with("C18") { "C18" } else if name.starts_with("C16") { "C16" } else { "C17" };
                     let file = format!("{}/{}-history-{:?}-cap{}-{}.json", replay_dir, p, kind, cap, last.ops.len());
                     let body = format!(
-                        "{{\"property\":\"{}\",\"kind\":\"history\",\"model\":\"reuse\",\"message_kind\":\"{:?}\",\"capacity\":{},\"ops\":{},\"probe\":{},\"what\":\"{}\",\"reused\":\"{}\",\"fresh\":\"{}\"}}",
-                        p, kind, cap, ops_json(&last.ops),
+                        "{{\"property\":\"{}\",\"kind\":\"history\",\"model\":\"reuse\",\"message_kind\":\"{:?}\",\"capacity\":{},\"depth\":{},\"canonical\":{},\"quick\":{},\"ops\":{},\"probe\":{},\"what\":\"{}\",\"reused\":\"{}\",\"fresh\":\"{}\"}}",
+                        p, kind, cap, depth, canonical as u8, quick as u8, ops_json(&last.ops),
                         probe.map_or("null".to_string(), |p| format!("[{},{}]", p.buf, p.entry)),
                         esc(&what), esc(&a), esc(&b)
                     );
@@ -553,10 +556,23 @@ pub struct Delivery {
     /// otherwise state = the full list of cuts, at most `max_cuts` of them
     pub canonical: bool,
     pub max_cuts: usize,
+    /// one-shot result of every prefix length, computed before the exploration on a copy of the
+    /// stream that lives at a different address
+    pub reference: std::sync::Arc<Vec<Res>>,
 }
 
 fn deliver(m: &Delivery, cuts: &[usize]) -> (Vec<Res>, Snap) {
-    let (kind, bytes) = STREAMS[m.stream];
+    deliver_from(m, STREAMS[m.stream].1, cuts)
+}
+
+fn reference_results(stream: usize, entry: u8, cap: usize) -> std::sync::Arc<Vec<Res>> {
+    let copy: &'static [u8] = Box::leak(STREAMS[stream].1.to_vec().into_boxed_slice());
+    let m = Delivery { stream, entry, cap, canonical: true, max_cuts: 0, reference: std::sync::Arc::new(Vec::new()) };
+    std::sync::Arc::new((0..=copy.len()).map(|k| deliver_from(&m, copy, &[k]).0.pop().unwrap()).collect())
+}
+
+fn deliver_from(m: &Delivery, bytes: &'static [u8], cuts: &[usize]) -> (Vec<Res>, Snap) {
+    let kind = STREAMS[m.stream].0;
     let cfg = lenient();
     let mut arr = vec![EMPTY_HEADER; m.cap];
     let mut uninit: Vec<Vec<MaybeUninit<Header<'static>>>> = (0..cuts.len()).map(|_| (0..m.cap).map(|_| MaybeUninit::uninit()).collect()).collect();
@@ -623,9 +639,8 @@ fn deliver(m: &Delivery, cuts: &[usize]) -> (Vec<Res>, Snap) {
 fn delivery_ok(m: &Delivery, s: &DState) -> bool {
     match (s.cuts.last(), &s.last) {
         (Some(&k), Some(last)) => {
-            let fresh = deliver(m, &[k]).0.pop().unwrap();
             PROBES.fetch_add(1, std::sync::atomic::Ordering::Relaxed);
-            *last == fresh
+            *last == m.reference[k]
         }
         _ => true,
     }
@@ -671,8 +686,10 @@ fn run_delivery(quick: bool, replay_dir: &str, sum: &mut Summary) {
                 continue;
             }
             for (cap, canonical) in [(0usize, true), (1, true), (2, true), (4, true), (1, false), (4, false)] {
-                let model = Delivery { stream, entry, cap, canonical, max_cuts: if quick { 2 } else { 3 } };
-                let checker = model.checker().threads(8).spawn_dfs().join();
+                let model = Delivery { stream, entry, cap, canonical, max_cuts: if quick { 2 } else { 3 }, reference: reference_results(stream, entry, cap) };
+                // single-threaded: if the subject kept state between calls, concurrent explorations
+                // would disturb each other and a discovery would not replay
+                let checker = model.checker().threads(1).spawn_dfs().join();
                 let st = checker.state_count() as u64;
                 let un = checker.unique_state_count() as u64;
                 sum.states += un;
@@ -697,6 +714,156 @@ fn run_delivery(quick: bool, replay_dir: &str, sum: &mut Summary) {
         }
     }
     sum.samples.push(format!("{{\"delivery\":\"stream {} delivered as prefixes of length 5, 21, 40, then complete; each re-parsed on the same Request\"}}", esc(&printable(STREAMS[0].1))));
+}
+
+// --------------------------------------------------------------------------------------------
+// recycled receive buffer (C18): different messages copied to the SAME address, each parsed by a
+// fresh value over a fresh array; the result may depend on nothing but the bytes
+// --------------------------------------------------------------------------------------------
+
+#[derive(Clone, Debug, PartialEq, Eq, Hash)]
+pub struct RState {
+    pub ops: Vec<(u8, u8)>,
+}
+
+pub struct Recycle {
+    pub kind: Kind,
+    pub depth: usize,
+    pub arena: usize,
+    pub reference: std::sync::Arc<Vec<[Res; 2]>>,
+}
+
+const ARENA: usize = 512;
+
+fn recycle_bufs(kind: Kind) -> &'static [&'static [u8]] {
+    match kind {
+        Kind::Request => REQ_BUFS,
+        Kind::Response => RESP_BUFS,
+        Kind::Headers => HDR_BUFS,
+    }
+}
+
+fn one_shot(kind: Kind, entry: u8, buf: &'static [u8]) -> Res {
+    let cfg = lenient();
+    let mut arr = vec![EMPTY_HEADER; 4];
+    match kind {
+        Kind::Request => {
+            let mut r = Request::new(&mut arr[..]);
+            let res = if entry == 0 { r.parse(buf) } else { cfg.parse_request(&mut r, buf) };
+            match res {
+                Ok(Status::Complete(n)) => Res::Complete { n, f1: r.method.map(String::from), f2: r.path.map(String::from), version: r.version, code: None, headers: hdrs(r.headers) },
+                Ok(Status::Partial) => Res::Partial,
+                Err(e) => Res::Err(format!("{:?}", e)),
+            }
+        }
+        Kind::Response => {
+            let mut r = Response::new(&mut arr[..]);
+            let res = if entry == 0 { r.parse(buf) } else { cfg.parse_response(&mut r, buf) };
+            match res {
+                Ok(Status::Complete(n)) => Res::Complete { n, f1: r.reason.map(String::from), f2: None, version: r.version, code: r.code, headers: hdrs(r.headers) },
+                Ok(Status::Partial) => Res::Partial,
+                Err(e) => Res::Err(format!("{:?}", e)),
+            }
+        }
+        Kind::Headers => match httparse::parse_headers(buf, &mut arr[..]) {
+            Ok(Status::Complete((n, h))) => Res::Complete { n, f1: None, f2: None, version: None, code: None, headers: hdrs(h) },
+            Ok(Status::Partial) => Res::Partial,
+            Err(e) => Res::Err(format!("{:?}", e)),
+        },
+    }
+}
+
+/// Replays the history through the arena; returns the last call's result.
+fn recycle_last(m: &Recycle, ops: &[(u8, u8)]) -> Option<Res> {
+    let mut last = None;
+    for &(b, e) in ops {
+        let msg = recycle_bufs(m.kind)[b as usize];
+        // SAFETY: the arena is a leaked ARENA-byte allocation; no reference into it is alive here
+        // (every earlier call's value and array were dropped), and the checker is single-threaded
+        let buf: &'static [u8] = unsafe {
+            std::ptr::copy_nonoverlapping(msg.as_ptr(), m.arena as *mut u8, msg.len());
+            std::slice::from_raw_parts(m.arena as *const u8, msg.len())
+        };
+        last = Some(one_shot(m.kind, e, buf));
+        PROBES.fetch_add(1, std::sync::atomic::Ordering::Relaxed);
+    }
+    last
+}
+
+impl Model for Recycle {
+    type State = RState;
+    type Action = (u8, u8);
+    fn init_states(&self) -> Vec<RState> {
+        vec![RState { ops: vec![] }]
+    }
+    fn actions(&self, s: &RState, actions: &mut Vec<(u8, u8)>) {
+        if s.ops.len() < self.depth {
+            for b in 0..recycle_bufs(self.kind).len() as u8 {
+                for e in 0..if self.kind == Kind::Headers { 1 } else { 2 } {
+                    actions.push((b, e));
+                }
+            }
+        }
+    }
+    fn next_state(&self, s: &RState, a: (u8, u8)) -> Option<RState> {
+        let mut ops = s.ops.clone();
+        ops.push(a);
+        Some(RState { ops })
+    }
+    fn properties(&self) -> Vec<Property<Self>> {
+        vec![Property::always("C18 a message parsed at a recycled buffer address gives the result its bytes alone determine", |m: &Recycle, s: &RState| {
+            match (s.ops.last(), recycle_last(m, &s.ops)) {
+                (Some(&(b, e)), Some(r)) => r == m.reference[b as usize][e as usize],
+                _ => true,
+            }
+        })]
+    }
+}
+
+fn run_recycle(quick: bool, replay_dir: &str, sum: &mut Summary) {
+    let depth = if quick { 2 } else { 3 };
+    for kind in [Kind::Request, Kind::Response, Kind::Headers] {
+        // references first, from the immutable static buffers, before the arena is ever used
+        let reference: Vec<[Res; 2]> = recycle_bufs(kind).iter().map(|b| [one_shot(kind, 0, b), one_shot(kind, 1, b)]).collect();
+        let arena = Box::leak(vec![0u8; ARENA].into_boxed_slice()).as_mut_ptr() as usize;
+        let model = Recycle { kind, depth, arena, reference: std::sync::Arc::new(reference) };
+        let checker = model.checker().threads(1).spawn_dfs().join();
+        let st = checker.state_count() as u64;
+        sum.states += checker.unique_state_count() as u64;
+        sum.transitions += st.saturating_sub(1);
+        sum.max_depth = sum.max_depth.max(checker.max_depth());
+        sum.instances.push(format!("{{\"model\":\"recycled-buffer\",\"kind\":\"{:?}\",\"depth\":{},\"messages\":{},\"states_generated\":{},\"unique_states\":{}}}", kind, depth, recycle_bufs(kind).len(), st, checker.unique_state_count()));
+        for (_n, path) in checker.discoveries() {
+            let ops = path.last_state().ops.clone();
+            let file = format!("{}/C18-recycled-{:?}-{}.json", replay_dir, kind, ops.len());
+            let body = format!("{{\"property\":\"C18\",\"kind\":\"history\",\"model\":\"recycled\",\"message_kind\":\"{:?}\",\"ops\":{:?},\"what\":\"a message copied to a recycled buffer address parses differently from the same bytes elsewhere\"}}", kind, ops.iter().map(|o| vec![o.0, o.1]).collect::<Vec<_>>());
+            std::fs::write(&file, body).unwrap();
+            sum.violations.push(file);
+        }
+    }
+}
+
+fn replay_recycled(text: &str) -> i32 {
+    let kind = if text.contains("\"message_kind\":\"Request\"") { Kind::Request } else if text.contains("\"message_kind\":\"Headers\"") { Kind::Headers } else { Kind::Response };
+    let flat = get_list(text, "ops");
+    let ops: Vec<(u8, u8)> = flat.chunks(2).map(|c| (c[0] as u8, c[1] as u8)).collect();
+    let reference: Vec<[Res; 2]> = recycle_bufs(kind).iter().map(|b| [one_shot(kind, 0, b), one_shot(kind, 1, b)]).collect();
+    let arena = Box::leak(vec![0u8; ARENA].into_boxed_slice()).as_mut_ptr() as usize;
+    let m = Recycle { kind, depth: ops.len(), arena, reference: std::sync::Arc::new(reference) };
+    println!("replaying: messages copied one after the other to the same buffer address, each parsed by a fresh value");
+    for o in &ops {
+        println!("  message {:?} via entry {}", printable(recycle_bufs(kind)[o.0 as usize]), o.1);
+    }
+    let last = recycle_last(&m, &ops).unwrap();
+    let (b, e) = *ops.last().unwrap();
+    println!("  at the recycled address: {:?}", last);
+    println!("  elsewhere              : {:?}", m.reference[b as usize][e as usize]);
+    if last != m.reference[b as usize][e as usize] {
+        println!("  VIOLATED: C18");
+        1
+    } else {
+        0
+    }
 }
 
 fn get_num(text: &str, key: &str) -> Option<u64> {
@@ -736,14 +903,18 @@ fn get_list(text: &str, key: &str) -> Vec<u64> {
 
 fn replay_file(path: &str) -> i32 {
     let text = std::fs::read_to_string(path).expect("replay file");
+    if text.contains("\"model\":\"recycled\"") {
+        return replay_recycled(&text);
+    }
     if text.contains("\"model\":\"delivery\"") {
-        let m = Delivery { stream: get_num(&text, "stream").unwrap() as usize, entry: get_num(&text, "entry").unwrap() as u8, cap: get_num(&text, "capacity").unwrap() as usize, canonical: true, max_cuts: 0 };
+        let (st, en, cp) = (get_num(&text, "stream").unwrap() as usize, get_num(&text, "entry").unwrap() as u8, get_num(&text, "capacity").unwrap() as usize);
+        let m = Delivery { stream: st, entry: en, cap: cp, canonical: true, max_cuts: 0, reference: reference_results(st, en, cp) };
         let cuts: Vec<usize> = get_list(&text, "cuts").into_iter().map(|v| v as usize).collect();
         println!("replaying delivery history: stream {:?}, entry {}, capacity {}, prefixes {:?}", printable(STREAMS[m.stream].1), m.entry, m.cap, cuts);
         let (results, _) = deliver(&m, &cuts);
         let mut bad = false;
         for (i, &k) in cuts.iter().enumerate() {
-            let fresh = deliver(&m, &[k]).0.pop().unwrap();
+            let fresh = m.reference[k].clone();
             println!("  prefix {:>3}: reused {:?}", k, results[i]);
             if results[i] != fresh {
                 println!("              fresh  {:?}   <-- differs", fresh);
@@ -789,10 +960,45 @@ fn replay_file(path: &str) -> i32 {
     rc
 }
 
+/// Re-runs the one model instance a reuse violation came from, single-threaded (deterministic
+/// call order even if the subject keeps state between calls). Exit 1 if it has a discovery.
+fn rerun_instance(path: &str) -> i32 {
+    let text = std::fs::read_to_string(path).expect("replay file");
+    let kind = if text.contains("\"message_kind\":\"Request\"") { Kind::Request } else if text.contains("\"message_kind\":\"Headers\"") { Kind::Headers } else { Kind::Response };
+    if text.contains("\"model\":\"recycled") {
+        let depth = (get_list(&text, "ops").len() / 2).max(2).min(3);
+        let reference: Vec<[Res; 2]> = recycle_bufs(kind).iter().map(|b| [one_shot(kind, 0, b), one_shot(kind, 1, b)]).collect();
+        let arena = Box::leak(vec![0u8; ARENA].into_boxed_slice()).as_mut_ptr() as usize;
+        let model = Recycle { kind, depth, arena, reference: std::sync::Arc::new(reference) };
+        let checker = model.checker().threads(1).spawn_dfs().join();
+        let d = checker.discoveries();
+        println!("single-threaded re-run of the recycled-buffer {:?} depth {} instance: {} discoveries", kind, depth, d.len());
+        for (name, path) in d {
+            println!("  {}: after {:?}", name, path.last_state().ops);
+        }
+        return if checker.discoveries().is_empty() { 0 } else { 1 };
+    }
+    let cap = get_num(&text, "capacity").unwrap_or(1) as usize;
+    let depth = get_num(&text, "depth").unwrap_or(3) as usize;
+    let canonical = get_num(&text, "canonical").unwrap_or(1) == 1;
+    let quick = get_num(&text, "quick").unwrap_or(1) == 1;
+    let model = Reuse { kind, cap, depth, canonical, ops: all_ops(kind, quick) };
+    let checker = model.checker().threads(1).spawn_dfs().join();
+    let d = checker.discoveries();
+    println!("single-threaded re-run of the {:?} capacity {} depth {} instance: {} states, {} discoveries", kind, cap, depth, checker.unique_state_count(), d.len());
+    for (name, path) in d {
+        println!("  {}: after {:?}", name, path.last_state().ops);
+    }
+    if checker.discoveries().is_empty() { 0 } else { 1 }
+}
+
 fn main() {
     let args: Vec<String> = std::env::args().collect();
     if args.len() >= 3 && args[1] == "replay" {
         std::process::exit(replay_file(&args[2]));
+    }
+    if args.len() >= 3 && args[1] == "instance" {
+        std::process::exit(rerun_instance(&args[2]));
     }
     if args.len() < 5 {
         eprintln!("usage: histories <reuse|delivery> <quick|thorough> --out <json> [--prop C18|C17] [--replays dir]");
@@ -806,7 +1012,12 @@ fn main() {
     let t0 = std::time::Instant::now();
     let mut sum = Summary { states: 0, unique: 0, transitions: 0, max_depth: 0, instances: vec![], violations: vec![], samples: vec![] };
     match args[1].as_str() {
-        "reuse" => run_reuse(quick, &dir, &prop, &mut sum),
+        "reuse" => {
+            run_reuse(quick, &dir, &prop, &mut sum);
+            if prop == "C18" {
+                run_recycle(quick, &dir, &mut sum);
+            }
+        }
         _ => run_delivery(quick, &dir, &mut sum),
     }
     sum.unique = sum.states;
